@@ -2,7 +2,7 @@
    Model: CssV.Selector (pre-pass + token machine of Selector._setSelectorText over the regenerated constants).
    The selector AST of Selector.v carries every layout choice (whitespace / comment tokens at every place the
    grammar allows them), so quantifying over `sel` quantifies over all selectors of the grammar AND all layouts. *)
-From CssV Require Import Base Gen.SelConsts Tokenizer Selector SelectorFacts.
+From CssV Require Import Base Gen.SelConsts Tokenizer Selector SelectorFacts SelectorReparse.
 
 (* the regenerated test tables are exactly Python's substring / equality tests on the regenerated strings *)
 Theorem expected_tests_are_substring_tests :
@@ -98,6 +98,37 @@ Theorem seq_is_expected :
 Proof. exact seq_is_expected_lemma. Qed.
 Print Assumptions seq_is_expected.
 
+(* serialise + re-parse.  ser_tokens ns q = the tokens of the serialised seq q (do_css_Selector through Out, read back
+   by the tokenizer; tie: compared with Tokenizer(selectorText) on every generated derivation).  NsOk ns: every
+   non-empty prefix of the namespace map is an identifier. *)
+(* (a) the serialised form of every grammar selector is again a rendering of a Declared selector (a canonical layout)
+       with the same specificity *)
+Theorem reparse_is_canonical_rendering :
+  forall ns sel, NsOk ns -> Declared ns sel ->
+    exists sel', Declared ns sel' /\ sp_selector sel' = sp_selector sel /\
+                 render sel' = ser_tokens ns (seq_of ns sel).
+Proof. exact reparse_canon. Qed.
+Print Assumptions reparse_is_canonical_rendering.
+(* (b) token level: parsing the serialised form is accepted and reports the same specificity *)
+Theorem specificity_reparse_tokens :
+  forall ns sel, NsOk ns -> Declared ns sel ->
+    wellformed (run ns (prepass (ser_tokens ns (seq_of ns sel)))) = true /\
+    spec (run ns (prepass (ser_tokens ns (seq_of ns sel)))) = spec (run ns (prepass (render sel))).
+Proof. exact specificity_reparse_tokens_lemma. Qed.
+Print Assumptions specificity_reparse_tokens.
+(* (c) text level, for any tokenizer that reads the serialised text of grammar selectors as ser_tokens describes
+       (the named hypothesis ser_text_tokenizes; validated by the correspondence, not proved) *)
+Theorem specificity_reparse :
+  forall tokens_of : str -> list stok,
+    (forall ns x t, NsOk ns -> Declared ns x -> ser_seq ns (seq_of ns x) = Some t ->
+                    tokens_of t = ser_tokens ns (seq_of ns x)) ->
+    forall ns sel t, NsOk ns -> Declared ns sel ->
+      ser_seq ns (seq (run ns (prepass (render sel)))) = Some t ->
+      wellformed (run ns (prepass (tokens_of t))) = true /\
+      spec (run ns (prepass (tokens_of t))) = spec (run ns (prepass (render sel))).
+Proof. exact specificity_reparse_lemma. Qed.
+Print Assumptions specificity_reparse.
+
 (* non-vacuity:  ` p|a#i.c[q|x ~= "v"]:hover:not( :lang(en) ) /**/ > *::first-line `  is Declared, and evaluates *)
 Definition ex_ns : ns_map := [(s "p", s "u:p"); (s "q", s "u:q")].
 Definition ex_sel : selector :=
@@ -127,3 +158,9 @@ Example comment_then_space_inside_function_accepted :   (* a:nth-child(/*c*/ 2) 
   spec (select [] [(s "IDENT", s "a"); (s "CHAR", s ":"); (s "FUNCTION", s "nth-child("); (s "COMMENT", s "/*c*/");
                    (s "S", s " "); (s "NUMBER", s "2"); (s "CHAR", s ")")]) = (0, 0, 1, 1)%nat.
 Proof. vm_compute. reflexivity. Qed.
+
+Example specificity_reparse_nonvacuous :
+  NsOk ex_ns /\ option_map (fun t => length t) (ser_seq ex_ns (seq_of ex_ns ex_sel)) = Some 59%nat /\
+  spec (run ex_ns (prepass (ser_tokens ex_ns (seq_of ex_ns ex_sel)))) = (0, 1, 4, 2)%nat /\
+  seq (run ex_ns (prepass (ser_tokens ex_ns (seq_of ex_ns ex_sel)))) = seq_of ex_ns ex_sel.
+Proof. repeat split; vm_compute; reflexivity. Qed.
